@@ -60,7 +60,7 @@ def run(ctx):
     for i in range(ctx.scale(200, 3000)):
         col = rng.randrange(0, 3)
         hb = Fraction(rng.randrange(0, 8)); tb = hb + rng.randrange(2, 6)
-        head = [frac(hb), col, rng.choice("24"), 0, rng.choice([None, 4])]
+        head = [frac(hb), col, rng.choice("24"), 0, rng.choice([None, 4, 0])]
         seq = [["t", head, frac(tb)]]
         inside = []
         for _ in range(rng.randrange(1, 4)):
